@@ -2,20 +2,21 @@
 (* Trace specification for C19: Parse / Raw events against Url.tla, and      *)
 (* concurrent registry histories against Dialers.tla with the linearisation  *)
 (* steps inferred by TLC.                                                    *)
-EXTENDS Url, TraceLib, Integers
+EXTENDS Url, Dialers, TraceLib
 
-VARIABLES reg, pc, cur, res
-D == INSTANCE Dialers WITH Proc <- 1..8, Scheme <- {"va", "vb", "vc"}, Dialer <- 1..64
+V_Proc == 1..8
+V_Scheme == {"va", "vb", "vc"}
+V_Dialer == 1..64
 
-TraceInit == TraceInitTL /\ D!Init
+TraceInit == TraceInitTL /\ Init
 
-TParse == IsEvent("Parse") /\ ParseOK(Ev.c, Ev.r) /\ UNCHANGED D!vars /\ Consume
-TRaw   == IsEvent("Raw") /\ Ev.outcome \in RawOutcomes /\ UNCHANGED D!vars /\ Consume
-TCall  == IsEvent("Call") /\ D!Call(Ev.p, Ev.call, Ev.s, Ev.d) /\ Consume
-TRet   == IsEvent("Ret") /\ D!Return(Ev.p, Ev.got) /\ Consume
+TParse == IsEvent("Parse") /\ ParseOK(Ev.c, Ev.r) /\ UNCHANGED vars /\ Consume
+TRaw   == IsEvent("Raw") /\ Ev.outcome \in RawOutcomes /\ UNCHANGED vars /\ Consume
+TCall  == IsEvent("Call") /\ Call(Ev.p, Ev.call, Ev.s, Ev.d) /\ Consume
+TRet   == IsEvent("Ret") /\ Return(Ev.p, Ev.got) /\ Consume
 TRace  == IsEvent("Race") /\ FALSE          \* a data race reported by the race detector is not a behaviour
-TLin   == HasEvent /\ Ev.op \in {"Call", "Ret"} /\ (\E p \in 1..8 : D!Lin(p)) /\ Silent
+TLin   == HasEvent /\ Ev.op \in {"Call", "Ret"} /\ (\E p \in Proc : Lin(p)) /\ Silent
 
 TraceNext == TParse \/ TRaw \/ TCall \/ TRet \/ TRace \/ TLin
-TraceSpec == TraceInit /\ [][TraceNext]_<<D!vars, tvars>>
+TraceSpec == TraceInit /\ [][TraceNext]_<<vars, tvars>>
 =============================================================================
